@@ -172,6 +172,9 @@ func inlinePkg(pkg *packages.Package, base map[string]bool) (int, map[*types.Fun
 					h.expr = r.Results[0]
 				}
 			}
+			if h.expr == nil {
+				h.expr = boolBodyAsExpr(info, fd, sig)
+			}
 			in.helpers[obj] = h
 		}
 	}
@@ -381,6 +384,7 @@ func (in *inliner) expandExpr(h *helperInfo, call *ast.CallExpr) ast.Expr {
 		return true
 	}, nil)
 	in.n++
+	holder.X = foldBoolConsts(in.info, holder.X)
 	return holder
 }
 
@@ -577,15 +581,84 @@ func (in *inliner) rewriteFunc(fd *ast.FuncDecl) {
 		}
 		return out
 	}
+	// a multi-statement helper called inside a larger expression of a simple statement is
+	// first given a temporary of its own: `x = f(h(a))` becomes `t := h(a); x = f(t)`
+	hoist := func(list []ast.Stmt) []ast.Stmt {
+		var out []ast.Stmt
+		for _, st := range list {
+			var roots []*ast.Expr
+			switch x := st.(type) {
+			case *ast.ExprStmt:
+				roots = append(roots, &x.X)
+			case *ast.AssignStmt:
+				for i := range x.Rhs {
+					roots = append(roots, &x.Rhs[i])
+				}
+			case *ast.ReturnStmt:
+				for i := range x.Results {
+					roots = append(roots, &x.Results[i])
+				}
+			case *ast.IfStmt:
+				if x.Init == nil {
+					roots = append(roots, &x.Cond)
+				}
+			case *ast.RangeStmt:
+				roots = append(roots, &x.X)
+			}
+			for _, r := range roots {
+				if h, _ := in.helperOf(*r); h != nil && h.expr == nil {
+					if _, isRange := st.(*ast.RangeStmt); !isRange {
+						if _, isIf := st.(*ast.IfStmt); !isIf {
+							continue // the whole operand: handled by the statement forms
+						}
+					}
+				}
+				holder := &ast.ParenExpr{X: *r}
+				astutil.Apply(holder, func(cur *astutil.Cursor) bool {
+					if _, isLit := cur.Node().(*ast.FuncLit); isLit {
+						return false
+					}
+					e, ok := cur.Node().(ast.Expr)
+					if !ok {
+						return true
+					}
+					h, call := in.helperOf(e)
+					if h == nil || h.expr != nil || h.obj.Type().(*types.Signature).Results().Len() != 1 {
+						return true
+					}
+					if _, isParen := e.(*ast.ParenExpr); isParen {
+						return true
+					}
+					in.n++
+					t := h.obj.Type().(*types.Signature).Results().At(0).Type()
+					v := types.NewVar(call.Pos(), h.obj.Pkg(), "inlt"+strconv.Itoa(in.n), t)
+					def := &ast.Ident{Name: v.Name(), NamePos: call.Pos()}
+					in.info.Defs[def] = v
+					use := &ast.Ident{Name: v.Name(), NamePos: call.Pos()}
+					in.info.Uses[use] = v
+					in.info.Types[use] = types.TypeAndValue{Type: t}
+					out = append(out, &ast.AssignStmt{Lhs: []ast.Expr{def}, Tok: token.DEFINE, TokPos: call.Pos(), Rhs: []ast.Expr{call}})
+					cur.Replace(use)
+					return false
+				}, nil)
+				*r = holder.X
+			}
+			out = append(out, st)
+		}
+		return out
+	}
 	var walk func(n ast.Node)
 	walk = func(n ast.Node) {
 		ast.Inspect(n, func(m ast.Node) bool {
 			switch x := m.(type) {
 			case *ast.BlockStmt:
+				x.List = hoist(x.List)
 				x.List = rewriteList(x.List)
 			case *ast.CaseClause:
+				x.Body = hoist(x.Body)
 				x.Body = rewriteList(x.Body)
 			case *ast.CommClause:
+				x.Body = hoist(x.Body)
 				x.Body = rewriteList(x.Body)
 			}
 			return true
@@ -1046,4 +1119,115 @@ func normaliseIndexLoops(info *types.Info, pkg *types.Package, f *ast.File) int 
 		return true
 	})
 	return n
+}
+
+// boolBodyAsExpr turns the body of a boolean predicate written as a cascade
+//
+//	if c1 { return true }; if c2 { return false }; return e
+//
+// into the expression c1 || (!c2 && e). Nil when the body has another shape.
+func boolBodyAsExpr(info *types.Info, fd *ast.FuncDecl, sig *types.Signature) ast.Expr {
+	if sig.Results().Len() != 1 {
+		return nil
+	}
+	if b, ok := sig.Results().At(0).Type().Underlying().(*types.Basic); !ok || b.Kind() != types.Bool {
+		return nil
+	}
+	if fd.Type.Results != nil && len(fd.Type.Results.List) == 1 && len(fd.Type.Results.List[0].Names) > 0 {
+		return nil // named result
+	}
+	list := fd.Body.List
+	if len(list) < 2 {
+		return nil
+	}
+	last, ok := list[len(list)-1].(*ast.ReturnStmt)
+	if !ok || len(last.Results) != 1 {
+		return nil
+	}
+	boolT := types.TypeAndValue{Type: types.Typ[types.Bool]}
+	mk := func(e ast.Expr) ast.Expr {
+		info.Types[e] = boolT
+		return e
+	}
+	paren := func(e ast.Expr) ast.Expr {
+		switch e.(type) {
+		case *ast.Ident, *ast.CallExpr, *ast.ParenExpr, *ast.SelectorExpr:
+			return e
+		}
+		return mk(&ast.ParenExpr{X: e})
+	}
+	acc := last.Results[0]
+	for i := len(list) - 2; i >= 0; i-- {
+		ifs, ok := list[i].(*ast.IfStmt)
+		if !ok || ifs.Init != nil || ifs.Else != nil || len(ifs.Body.List) != 1 {
+			return nil
+		}
+		r, ok := ifs.Body.List[0].(*ast.ReturnStmt)
+		if !ok || len(r.Results) != 1 {
+			return nil
+		}
+		tv, isC := info.Types[r.Results[0]]
+		switch {
+		case isC && tv.Value != nil && tv.Value.String() == "true":
+			acc = mk(&ast.BinaryExpr{X: paren(ifs.Cond), Op: token.LOR, Y: paren(acc)})
+		case isC && tv.Value != nil && tv.Value.String() == "false":
+			acc = mk(&ast.BinaryExpr{X: mk(&ast.UnaryExpr{Op: token.NOT, X: paren(ifs.Cond)}), Op: token.LAND, Y: paren(acc)})
+		default:
+			return nil
+		}
+	}
+	return acc
+}
+
+// foldBoolConsts simplifies `true && x`, `false && x`, `x || false`, `x || true`, `!true`
+// that appear once constant arguments were substituted for boolean parameters.
+func foldBoolConsts(info *types.Info, root ast.Expr) ast.Expr {
+	val := func(e ast.Expr) (bool, bool) {
+		e = ast.Unparen(e)
+		if id, ok := e.(*ast.Ident); ok {
+			if c, isConst := info.Uses[id].(*types.Const); isConst && c.Parent() == types.Universe {
+				return id.Name == "true", id.Name == "true" || id.Name == "false"
+			}
+		}
+		return false, false
+	}
+	holder := &ast.ParenExpr{X: root}
+	astutil.Apply(holder, nil, func(cur *astutil.Cursor) bool {
+		switch x := cur.Node().(type) {
+		case *ast.ParenExpr:
+			if x == holder {
+				return true
+			}
+			if _, isC := val(x.X); isC {
+				cur.Replace(ast.Unparen(x.X))
+			}
+		case *ast.UnaryExpr:
+			if v, isC := val(x.X); isC && x.Op == token.NOT {
+				id := ast.NewIdent(map[bool]string{true: "false", false: "true"}[v])
+				info.Uses[id] = types.Universe.Lookup(id.Name)
+				cur.Replace(id)
+			}
+		case *ast.BinaryExpr:
+			if x.Op != token.LAND && x.Op != token.LOR {
+				return true
+			}
+			lv, lc := val(x.X)
+			rv, rc := val(x.Y)
+			switch {
+			case lc && x.Op == token.LAND && lv, lc && x.Op == token.LOR && !lv:
+				cur.Replace(x.Y)
+			case lc:
+				cur.Replace(ast.Unparen(x.X)) // false && y -> false ; true || y -> true
+			case rc && x.Op == token.LAND && rv, rc && x.Op == token.LOR && !rv:
+				cur.Replace(x.X)
+			case rc && x.Op == token.LAND && !rv:
+				// x && false: x is still evaluated, but for the analysis the value is false
+				cur.Replace(ast.Unparen(x.Y))
+			case rc && x.Op == token.LOR && rv:
+				cur.Replace(ast.Unparen(x.Y))
+			}
+		}
+		return true
+	})
+	return holder.X
 }
